@@ -145,23 +145,23 @@ func genC08(rng *rand.Rand, n int, emit func(Case), dist map[string]int) {
 		return nil
 	}
 	type structT struct {
-		I   int      `query:"i"`
-		I8  int8     `query:"i8"`
-		I16 int16    `query:"i16"`
-		I32 int32    `query:"i32"`
-		I64 int64    `query:"i64"`
-		U   uint     `query:"u"`
-		U8  uint8    `query:"u8"`
-		U16 uint16   `query:"u16"`
-		U32 uint32   `query:"u32"`
-		U64 uint64   `query:"u64"`
-		B   bool     `query:"b"`
-		F32 float32  `query:"f32"`
-		F64 float64  `query:"f64"`
-		PI8 *int8    `query:"pi8"`
-		PU  *uint16  `query:"pu16"`
-		SI8 []int8   `query:"si8"`
-		SU  []uint32 `query:"su32"`
+		I   int      `query:"i" param:"i" header:"i" form:"i"`
+		I8  int8     `query:"i8" param:"i8" header:"i8" form:"i8"`
+		I16 int16    `query:"i16" param:"i16" header:"i16" form:"i16"`
+		I32 int32    `query:"i32" param:"i32" header:"i32" form:"i32"`
+		I64 int64    `query:"i64" param:"i64" header:"i64" form:"i64"`
+		U   uint     `query:"u" param:"u" header:"u" form:"u"`
+		U8  uint8    `query:"u8" param:"u8" header:"u8" form:"u8"`
+		U16 uint16   `query:"u16" param:"u16" header:"u16" form:"u16"`
+		U32 uint32   `query:"u32" param:"u32" header:"u32" form:"u32"`
+		U64 uint64   `query:"u64" param:"u64" header:"u64" form:"u64"`
+		B   bool     `query:"b" param:"b" header:"b" form:"b"`
+		F32 float32  `query:"f32" param:"f32" header:"f32" form:"f32"`
+		F64 float64  `query:"f64" param:"f64" header:"f64" form:"f64"`
+		PI8 *int8    `query:"pi8" param:"pi8" header:"pi8" form:"pi8"`
+		PU  *uint16  `query:"pu16" param:"pu16" header:"pu16" form:"pu16"`
+		SI8 []int8   `query:"si8" param:"si8" header:"si8" form:"si8"`
+		SU  []uint32 `query:"su32" param:"su32" header:"su32" form:"su32"`
 	}
 	encStr := func(x string) *big.Int { return new(big.Int).SetBytes(append([]byte{1}, x...)) }
 	encTime := func(t time.Time) *big.Int {
@@ -326,11 +326,34 @@ func genC08(rng *rand.Rand, n int, emit func(Case), dist map[string]int) {
 				vals = append(vals, pick())
 			}
 			q := url.Values{}
+			ssrc := rng.Intn(4) // 0 query string, 1 path parameter, 2 header, 3 form body through Context.Bind
+			if ssrc == 1 && len(vals) > 1 {
+				vals = vals[:1] // a path parameter has one value
+			}
 			for _, v := range vals {
 				q.Add(tag, v)
 			}
 			req := httptest.NewRequest(http.MethodGet, "/?"+q.Encode(), nil)
+			switch ssrc {
+			case 1:
+				req = httptest.NewRequest(http.MethodGet, "/", nil)
+			case 2:
+				req = httptest.NewRequest(http.MethodGet, "/", nil)
+				for _, v := range vals {
+					req.Header.Add(tag, v)
+				}
+			case 3:
+				req = httptest.NewRequest(http.MethodPost, "/", strings.NewReader(q.Encode()))
+				req.Header.Set(echo.HeaderContentType, echo.MIMEApplicationForm)
+			}
 			c := recycledContext(e, req, httptest.NewRecorder())
+			c.SetParamNames()
+			c.SetParamValues()
+			if ssrc == 1 {
+				c.SetParamNames(tag)
+				c.SetParamValues(vals[0])
+			}
+			dist[fmt.Sprintf("struct_field_source_%d", ssrc)]++
 			var err error
 			panicked := false
 			func() {
@@ -339,7 +362,16 @@ func genC08(rng *rand.Rand, n int, emit func(Case), dist map[string]int) {
 						panicked = true
 					}
 				}()
-				err = (&echo.DefaultBinder{}).BindQueryParams(c, &st)
+				switch ssrc {
+				case 0:
+					err = (&echo.DefaultBinder{}).BindQueryParams(c, &st)
+				case 1:
+					err = (&echo.DefaultBinder{}).BindPathParams(c, &st)
+				case 2:
+					err = (&echo.DefaultBinder{}).BindHeaders(c, &st)
+				default:
+					err = c.Bind(&st)
+				}
 			}()
 			fv := sv.Field(fi)
 			for fv.Kind() == reflect.Ptr {
